@@ -31,7 +31,7 @@ func init() {
 		Level: "exploration",
 		Cases: func(tier string) int { return tierN(tier, 4000, 80000) },
 		Run:   runC11,
-		Rule: "case = (multihash configuration with file limits 50-1000 bytes, key universe, fill history that spreads records over several files, then a kill phase that removes/overwrites all keys of chosen non-current files, or all but a few (low-use scenario), followed by Flush and harness-driven GC cycles with a Flush after each; some cases start with cycles stopped midway by a synthetic deadline; in a quarter of the cases EVERY primary cycle is time-limited with a budget that expires while its first unvisited file is scanned, and the bounds grow by the number of non-current files). Oracle on directory listings, sizes, StorageSize and fsck's decoded layout: (a) every non-current primary file without live records is zero-length or unlinked within 4 primary cycles, and unlinked if it was the oldest file when visited; (b) every non-current index file no bucket refers into is zero-length or unlinked within 4 index cycles; (c) a primary file whose free share is >= threshold+10% is, within live+4 cycles, drained and released or shortened by truncation of its free tail until its free share is below that again; (d) a cycle that relocated nothing does not grow StorageSize, otherwise growth is bounded by the relocated records, their rewritten record lists and 24 bytes of freelist per record; (e) after the bounds one more primary+index cycle and Flush changes no file. Pinned variant (index mod 8 == 6): a complete cycle visits every file before the kill phase and the first cycle after it is stopped by its budget while its freelist batch is being applied. Background family (index mod 16 == 15): the store's own collector goroutines (1 ms interval, with or without a cycle time limit that never expires) are stepped one cycle at a time by gates at their cycle-start points, with a Flush while both are parked; clauses (a)-(c) with the same bounds and the default 85% threshold. " +
+		Rule: "case = (multihash configuration with file limits 50-1000 bytes, key universe, fill history that spreads records over several files, then a kill phase that removes/overwrites all keys of chosen non-current files, or all but a few (low-use scenario), followed by Flush and harness-driven GC cycles with a Flush after each; some cases start with cycles stopped midway by a synthetic deadline; in a quarter of the cases EVERY primary cycle is time-limited with a budget that expires while its first unvisited file is scanned, and the bounds grow by the number of non-current files). Oracle on directory listings, sizes, StorageSize and fsck's decoded layout: (a) every non-current primary file without live records is zero-length or unlinked within 4 primary cycles, and unlinked if it was the oldest file when visited; (b) every non-current index file no bucket refers into is zero-length or unlinked within 4 index cycles; (c) a primary file whose free share is >= threshold+10% is, within live+4 cycles, drained and released or shortened by truncation of its free tail until its free share is below that again; (d) a cycle that relocated nothing does not grow StorageSize, otherwise growth is bounded by the relocated records, their rewritten record lists and 24 bytes of freelist per record; (e) after the bounds one more primary+index cycle and Flush changes no file. Bulk variant (index mod 32 == 3): 450-700 (or 1100-1400) overwrites without a GC cycle in between, so one hand-over carries several hundred entries. Pinned variant (index mod 8 == 6): a complete cycle visits every file before the kill phase and the first cycle after it is stopped by its budget while its freelist batch is being applied. Background family (index mod 16 == 15): the store's own collector goroutines (1 ms interval, with or without a cycle time limit that never expires) are stepped one cycle at a time by gates at their cycle-start points, with a Flush while both are parked; clauses (a)-(c) with the same bounds and the default 85% threshold. " +
 			"non-trivial iff at least one dead or low-use file existed and was released; distinct = hash of (configuration, digests, operations, scenario)",
 		Assumptions: []string{
 			"progress is measured in harness-driven cycles with a Flush between cycles (the statement's 'change flushed')",
@@ -124,6 +124,22 @@ func runC11(c run.Ctx) *core.CaseResult {
 		if r.IntN(10) == 0 {
 			do(seq.Op{Kind: "rm", K: r.IntN(len(u.Keys))})
 		}
+	}
+	if c.Index%32 == 3 {
+		// bulk variant: several hundred superseded records reach the collector in ONE hand-over
+		// (buffer boundaries of the readers and writers of the freelist lie at 341 and 1024 entries)
+		n := 450 + r.IntN(250)
+		if c.Index%64 == 35 {
+			n = 1100 + r.IntN(300)
+		}
+		for i := 0; i < n; i++ {
+			do(seq.Op{Kind: "put", K: r.IntN(len(u.Keys)), VID: vid, VLen: 1 + r.IntN(12)})
+			vid++
+			if i%64 == 63 {
+				do(seq.Op{Kind: "flush"})
+			}
+		}
+		res.Add("cases_with_bulk_handover", 1)
 	}
 	do(seq.Op{Kind: "flush"})
 	if res.Verdict == "violated" {
